@@ -86,7 +86,7 @@ func mutationsFor(d *draft) []mutation {
 	return out
 }
 
-// mutationCase: prefix, mutated message, twin.
+// mutationCase: prefix, mutated message, twin, the mutated message again.
 func mutationCase(s *session, sc *scene, kind string, mut mutation, prefixLen int, tag string) {
 	s.begin("prop=%s %s kind=%s mut=%s vid=%d role=%d prefix=%d", s.prop, tag, kind, mut.name, sc.val.vid, uint64(sc.role), prefixLen)
 	s.fresh()
@@ -118,6 +118,10 @@ func mutationCase(s *session, sc *scene, kind string, mut mutation, prefixLen in
 	if mut.name != "none" {
 		s.out.Note("twin")
 		s.step(twin.build())
+		// the mutated message once more: whatever the first delivery left behind (signer state, cached keys, locks)
+		// must not change how its repetition is handled
+		s.out.Note("echo")
+		s.step(mutated.build())
 	}
 	s.out.End()
 }
